@@ -238,7 +238,7 @@ class SourceFile:
         return self.src.count("\n", 0, self.toks[tokidx].pos) + 1
 
 
-def _match_segment(items, seg):
+def _match_segment(items, seg, nxt=None, toks=None):
     seg = seg.strip()
     m = re.match(r"^(\w+)\s*(.*?)(?:\s*#(\d+))?$", seg)
     kind, rest, nth = m.group(1), m.group(2).strip(), m.group(3)
@@ -263,6 +263,17 @@ def _match_segment(items, seg):
         n = int(nth)
         if n >= len(cands): raise LostAnchor("selector segment %r: index %d out of %d" % (seg, n, len(cands)))
         return cands[n]
+    if len(cands) > 1 and nxt is not None and toks is not None and not nxt.startswith(("stmt ", "deepfn ")):
+        # several `impl T` blocks: the one that holds the item named by the next segment (must be unique)
+        holding = []
+        for c in cands:
+            br = c.body_range()
+            if br is None: continue
+            try:
+                _match_segment(parse_items(toks, br[0] + 1, br[1]), nxt); holding.append(c)
+            except LostAnchor:
+                pass
+        if len(holding) == 1: return holding[0]
     if len(cands) != 1:
         raise LostAnchor("selector segment %r matches %d items" % (seg, len(cands)))
     return cands[0]
@@ -324,11 +335,12 @@ def select(selector):
     items = sf.items
     it = None
     rng = (0, len(sf.toks))
-    for seg in parts[1:]:
+    segs = parts[1:]
+    for si, seg in enumerate(segs):
         if seg.startswith("stmt ") or seg.startswith("deepfn "):
             it = _match_deep(sf, rng, seg)
         else:
-            it = _match_segment(items, seg)
+            it = _match_segment(items, seg, segs[si + 1] if si + 1 < len(segs) else None, sf.toks)
         br = it.body_range()
         if it.kind in ("macro_call", "macro_rules") and br is None:
             # body in (...) or [...]
